@@ -24,6 +24,8 @@ CONSTANTS
   MayDrain = FALSE
   MaxT = 0
   TStep = 1
+  RetryJobs = {}
+  Retries = 0
   FreeOrder = FALSE
 INVARIANTS
   OneFate PortOk LostOnePerDeath NoFactoryPanic KeyExclusive KeyFifo OneAtATime HashInPool RoundRobinCovers QueuerNoIdle ViewExact
